@@ -99,6 +99,8 @@ class C11(Check):
                     ops[rng.randrange(len(ops))] = ops[k]
             out.append({"ops": ops, "index": rng.choice([0, 1000, rng.randrange(2000, 10 ** 9), 2 ** 31 - 1]),
                         "ethertype": rng.choice([0x88A4, rng.randrange(0x3000, 0x6000)])})
+            if len(ops) > 1 and rng.random() < 0.3:
+                out[-1]["mid"] = rng.randrange(1, len(ops))
         # malformed stream: field values struct cannot pack
         for _ in range(n // 12):
             bad = rng.choice([(False, 300, b"", 0, 0, (0, 0)), (False, 4, b"", 70000, 0, (0, 0)),
@@ -112,7 +114,14 @@ class C11(Check):
         from ebpfcat.ebpfcat import SterilePacket
         p, s = Packet(), SterilePacket()
         outs = []
-        for w, cmd, data, wkc, idx, addr in case["ops"]:
+        for opno, (w, cmd, data, wkc, idx, addr) in enumerate(case["ops"]):
+            if opno and opno == case.get("mid"):
+                # the packet is assembled (and a sterile copy made) half way, then more datagrams are appended
+                try:
+                    p.assemble(case["index"], case["ethertype"])
+                    s.sterile(case["index"], case["ethertype"])
+                except Exception:      # noqa
+                    pass
             c = ECCmd(cmd) if cmd in ECCmd._value2member_map_ else _FakeCmd(cmd)
             try:
                 a, b = p.append(c, data, idx, *addr, wkc=wkc)
@@ -244,7 +253,7 @@ class C11(Check):
 
     def rule(self):
         return ("datagram sequences of 1-18 appends (position/node and logical addressing, all commands, data lengths 0..1500 with 25% placed "
-                "within +-3 bytes of the remaining room, random wkc presets/idx), writer flags for the sterile copy; a separate malformed stream "
+                "within +-3 bytes of the remaining room, random wkc presets/idx), writer flags for the sterile copy; 30%: the packet is assembled and a sterile copy made half way, then more datagrams are appended; a separate malformed stream "
                 "with unpackable field values. Non-trivial = at least one datagram accepted; distinct by content")
 
     def distribution(self, cases, observed):
@@ -261,14 +270,14 @@ class C11(Check):
 
     def describe(self, case):
         return {"ops": [[w, cmd, {"len": len(data), "head": data[:8].hex()}, wkc, idx, list(addr)] for w, cmd, data, wkc, idx, addr in case["ops"]],
-                "index": case["index"], "ethertype": case["ethertype"]}
+                "index": case["index"], "ethertype": case["ethertype"], **({"mid": case["mid"]} if case.get("mid") else {})}
 
     def case_from_json(self, w):
         ops = []
         for wr, cmd, data, wkc, idx, addr in w["ops"]:
             head = bytes.fromhex(data["head"])
             ops.append((wr, cmd, head + bytes(data["len"] - len(head)), wkc, idx, tuple(addr)))
-        return {"ops": ops, "index": w["index"], "ethertype": w["ethertype"]}
+        return {"ops": ops, "index": w["index"], "ethertype": w["ethertype"], **({"mid": w["mid"]} if w.get("mid") else {})}
 
 
 class _FakeCmd:
